@@ -50,19 +50,29 @@ fn expect_syntax_error(rep: &mut Rep, kind: &str, src: &str) {
 fn spell_int(rng: &mut Rng, i: i64) -> (String, &'static str) {
     let mag = (i as i128).unsigned_abs();
     let neg = i < 0;
-    let (body, form) = match rng.below(4) {
-        0 | 1 => (format!("{}", mag), "dec"),
-        2 => (format!("0x{:x}", mag), "hex-lower"),
-        _ => (format!("0x{:X}", mag), "hex-upper"),
+    // every spelling of the hexadecimal form: prefix 0x / 0X, digits in either or mixed case, leading zeros
+    let mixed = |m: u128, rng: &mut Rng| -> String { format!("{:x}", m).chars().map(|c| if rng.chance(1, 2) { c.to_ascii_uppercase() } else { c }).collect() };
+    let (body, form) = match rng.below(9) {
+        0..=2 => (format!("{}", mag), "dec"),
+        3 => (format!("0x{:x}", mag), "hex-lower"),
+        4 => (format!("0x{:X}", mag), "hex-upper"),
+        5 => (format!("0X{:x}", mag), "hex-X-lower"),
+        6 => (format!("0X{:X}", mag), "hex-X-upper"),
+        7 => (format!("0{}{}", rng.pick(&['x', 'X']), mixed(mag, rng)), "hex-mixed"),
+        _ => (format!("0{}{}{:x}", rng.pick(&['x', 'X']), "0".repeat(1 + rng.below(4)), mag), "hex-padded"),
     };
     (if neg { format!("-{}", body) } else { body }, form)
 }
 
 fn spell_uint(rng: &mut Rng, u: u64) -> (String, &'static str) {
-    match rng.below(4) {
+    match rng.below(8) {
         0 | 1 => (format!("{}u", u), "dec-u"),
         2 => (format!("{}U", u), "dec-U"),
-        _ => (format!("0x{:x}u", u), "hex-u"),
+        3 => (format!("0x{:x}u", u), "hex-u"),
+        4 => (format!("0X{:x}u", u), "hex-X-u"),
+        5 => (format!("0x{:X}U", u), "hex-upper-U"),
+        6 => (format!("0X{:X}U", u), "hex-X-upper-U"),
+        _ => (format!("0{}00{:x}{}", rng.pick(&['x', 'X']), u, rng.pick(&['u', 'U'])), "hex-padded-u"),
     }
 }
 
